@@ -1,5 +1,6 @@
 import TxVerif.Props.C17
 import TxVerif.Tie.PQ
+import TxVerif.Props.PQQueueRefine
 open TxVerif
 #print axioms counters
 #print axioms inv_empty
@@ -9,3 +10,9 @@ open TxVerif
 #print axioms callback_totals
 #print axioms Tie.pq_flush_callback_after
 #print axioms Tie.pq_ack_is_one_tx
+#print axioms queue_sim_step
+#print axioms queue_refines_fifo
+#print axioms queue_counters
+#print axioms queue_available
+#print axioms queue_misuse_errors
+#print axioms queue_reach_example
